@@ -157,3 +157,307 @@ Theorem C04_prnt_row_order_free :
          Ok out.
 Proof. exact prnt_row_order_free. Qed.
 
+(* ==== THE REAL READER MODEL ON FILES OF ANOTHER WRITER: the spec encoder with all its freedoms (Proofs/BinSpecRead.v).
+   columns  for all 31 document column types and BOTH rotation encodings (id form and nine floats), dec_col of the real reader model applied to
+            the spec encoder's column yields the values the column describes (retyped by the canonical type; Int32->Int64 and Float32->Float64
+            widened exactly), consuming exactly those bytes;
+   chunks   INST (plain and service format, ANY class ids and referent numbers), PROP, PRNT, SSTR, META and unknown-name chunks: dispatch_chunk does
+            what an executable byte-free description (rstep) says; truncated / undefined-type / unknown-type PROP chunks leave the state unchanged;
+   file     for every well-formed logical file (executable predicate file_dom_ok, proved sound), every accepted chunk order — INST chunks in any
+            order before the PROP chunks, PRNT anywhere after the INST chunks, META and unknown chunks anywhere —, any per-chunk compression the
+            inflater inverts and either rotation form: decode_file succeeds and the decoded DOM is related to bspec_to_dom f by an explicit relation
+            (same instances up to an injective relabelling, same class, parent/child structure and order; names and property tables as the fold of
+            the PROP chunks in chunk order, for properties unknown to the database); the forest is BUILT from the children-first PRNT rows;
+   orders   two accepted orders / compressions / numberings of one file decode to the same DOM up to the labelling (chunk_order_independent).
+   The reader accepts exactly the document's chunk order ("File Structure": INST chunks, then PROP chunks): interleavings the document does not
+   list are refuted with witnesses (a Referent column before the INST chunk of its target reads as null; SSTR after a SharedString PROP; PRNT before
+   the INST chunk of a parent).  Values the reader is stricter about than a literal reading of the document (reserved bits of Faces / Axes set,
+   BrickColor numbers outside the palette, Font weights outside the enumeration, Bytecode columns) are characterised by witnesses. *)
+From RbxVerif Require Import Lz4 BinSpec BinSpecRead.
+From RbxVerif Require BinFinish BinRoundTrip BinSpecAgree BinSpecFacts.
+
+Theorem C04_reader_reads_spec_column :
+  forall (dc : dec_ctx) (u : bool) (col : bs_column) (cty : N) (ty : wire_type)
+         (sstr : list (bytes * bytes)) (lo : Z -> N) (vals : list value) (rest : list N),
+       dc_lim dc = None ->
+       bs_col_ok col = true ->
+       reader_col_ok cty col = true ->
+       wire_of_id (bs_col_type col) = Some ty ->
+       (forall z : Z, dc_resolve dc z = lo z) ->
+       dc_sstr dc = List.map snd sstr ->
+       bs_col_values sstr lo col = Ok vals ->
+       match col with
+       | KContent _ _ => rest = []
+       | _ => True
+       end ->
+       dec_col ty cty dc (bs_col_len col) (bs_enc_col rdA u col ++ rest) =
+       Ok (List.map (retype cty) vals, rest).
+Proof. exact reader_reads_spec_column. Qed.
+
+Theorem C04_reader_item_chunk :
+  forall (d : db) (p : dec_params),
+       dp_lim p = None ->
+       forall (u : bool) (st : dstate) (it : bs_item) (st' : dstate),
+       ritem_ok it = true ->
+       rstep d p st it = Some st' ->
+       dispatch_chunk d p st (fst (bs_enc_item rdA u it)) (snd (bs_enc_item rdA u it)) = Ok (Some st').
+Proof. exact reader_item_chunk. Qed.
+
+Theorem C04_reader_on_spec_file_gen :
+  forall (d : db) (p : dec_params) (u : bool) (order : list bs_okey) (cmps : list compression)
+         (f : bs_file) (st : dstate),
+       dp_lim p = None ->
+       bs_wf f = true ->
+       gframes_rt p cmps (List.map (bs_enc_item rdA u) (bs_items_of order f)) ->
+       run_items d p dstate0 (bs_items_of order f) = Some st ->
+       decode_file d p
+         (bs_enc_header (bs_header_of f) ++
+          gframe_all cmps (List.map (bs_enc_item rdA u) (bs_items_of order f))) = 
+       finish p st.
+Proof. exact reader_on_spec_file_gen. Qed.
+
+Theorem C04_reader_decodes_spec_file_structure :
+  forall (d : db) (p : dec_params) (u : bool) (order : list bs_okey) (cmps : list compression)
+         (f : bs_file) (F : list BinFinish.ztree),
+       dp_lim p = None ->
+       bs_wf f = true ->
+       gframes_rt p cmps (List.map (bs_enc_item rdA u) (bs_items_of order f)) ->
+       let items := flat_map (item_of_key f) order in
+       scan d [] 0 items = true ->
+       inst_prnt_ok false items = true ->
+       bs_prnts items = [bf_prnt f] ->
+       NoDup (all_refs (bs_insts items)) ->
+       BinFinish.rows_describe (bf_prnt f) F ->
+       NoDup (BinFinish.zfrefs F) ->
+       incl (BinFinish.zfrefs F) (all_refs (bs_insts items)) ->
+       exists (st : dstate) (out : cdom),
+         run_items d p dstate0 (bs_items_of order f) = Some st /\
+         decode_file d p
+           (bs_enc_header (bs_header_of f) ++
+            gframe_all cmps (List.map (bs_enc_item rdA u) (bs_items_of order f))) = 
+         Ok out /\
+         BinFinish.reconstructs (BinFinish.dinst_of (ds_insts st)) p F out /\
+         (forall (c : bs_class) (r : Z),
+          In c (bs_insts items) ->
+          In r (cls_refs c) ->
+          di_class (BinFinish.dinst_of (ds_insts st) r) = cls_name c /\
+          di_children (BinFinish.dinst_of (ds_insts st) r) = BinFinish.rows_to r (bf_prnt f)).
+Proof. exact reader_decodes_spec_file_structure. Qed.
+
+Theorem C04_forest_of_describes :
+  forall rows : list (Z * Z),
+       NoDup (List.map fst rows) ->
+       children_first rows = true ->
+       BinFinish.rows_describe rows (forest_of rows) /\
+       NoDup (BinFinish.zfrefs (forest_of rows)) /\
+       Permutation.Permutation (BinFinish.zfrefs (forest_of rows)) (List.map fst rows).
+Proof. exact forest_of_describes. Qed.
+
+Theorem C04_file_dom_ok_sound :
+  forall f : bs_file, file_dom_ok f = true -> dom_facts f.
+Proof. exact file_dom_ok_sound. Qed.
+
+Theorem C04_spec_dom_closed :
+  forall f : bs_file,
+       dom_facts f -> bspec_to_dom f = Ok (List.map (mk_node (f_kids f) (f_ai f)) (bf_prnt f)).
+Proof. exact spec_dom_closed. Qed.
+
+Theorem C04_reader_decodes_spec_file_dom :
+  forall (d : db) (p : dec_params) (u : bool) (order : list bs_okey) (cmps : list compression)
+         (f : bs_file) (P1 P2 : list bs_item),
+       dp_lim p = None ->
+       file_dom_ok f = true ->
+       gframes_rt p cmps (List.map (bs_enc_item rdA u) (bs_items_of order f)) ->
+       flat_map (item_of_key f) order = P1 ++ P2 ->
+       forallb (fun it : bs_item => negb (is_prop it)) P1 = true ->
+       forallb (fun it : bs_item => negb (is_reg it)) P2 = true ->
+       Permutation.Permutation (bs_insts P1) (bf_classes f) ->
+       bs_prnts (P1 ++ P2) = [bf_prnt f] ->
+       scan d [] 0 (P1 ++ P2) = true ->
+       inst_prnt_ok false (P1 ++ P2) = true ->
+       scan d (bs_insts P1) (sstr_total P1) P2 = true ->
+       forallb (prop_unknown d (bs_insts P1)) (bs_props P2) = true ->
+       exists (st : dstate) (out : cdom) (nodes : list bs_node),
+         run_items d p dstate0 (bs_items_of order f) = Some st /\
+         decode_file d p
+           (bs_enc_header (bs_header_of f) ++
+            gframe_all cmps (List.map (bs_enc_item rdA u) (bs_items_of order f))) = 
+         Ok out /\
+         bspec_to_dom f = Ok nodes /\
+         same_dom (phi_of (f_kids f) (D_of st)) (node_rec f p st (bs_props P2)) nodes out.
+Proof. exact reader_decodes_spec_file_dom. Qed.
+
+Theorem C04_chunk_order_independent :
+  forall (d : db) (p : dec_params) (f : bs_file) (u1 : bool) (order1 : list bs_okey)
+         (cmps1 : list compression) (P1 P2 : list bs_item) (u2 : bool) (order2 : list bs_okey)
+         (cmps2 : list compression) (P1' P2' : list bs_item),
+       dp_lim p = None ->
+       file_dom_ok f = true ->
+       gframes_rt p cmps1 (List.map (bs_enc_item rdA u1) (bs_items_of order1 f)) ->
+       gframes_rt p cmps2 (List.map (bs_enc_item rdA u2) (bs_items_of order2 f)) ->
+       flat_map (item_of_key f) order1 = P1 ++ P2 ->
+       flat_map (item_of_key f) order2 = P1' ++ P2' ->
+       forallb (fun it : bs_item => negb (is_prop it)) P1 = true ->
+       forallb (fun it : bs_item => negb (is_reg it)) P2 = true ->
+       forallb (fun it : bs_item => negb (is_prop it)) P1' = true ->
+       forallb (fun it : bs_item => negb (is_reg it)) P2' = true ->
+       Permutation.Permutation (bs_insts P1) (bf_classes f) ->
+       bs_prnts (P1 ++ P2) = [bf_prnt f] ->
+       Permutation.Permutation (bs_insts P1') (bf_classes f) ->
+       bs_prnts (P1' ++ P2') = [bf_prnt f] ->
+       scan d [] 0 (P1 ++ P2) = true ->
+       inst_prnt_ok false (P1 ++ P2) = true ->
+       scan d [] 0 (P1' ++ P2') = true ->
+       inst_prnt_ok false (P1' ++ P2') = true ->
+       scan d (bs_insts P1) (sstr_total P1) P2 = true ->
+       forallb (prop_unknown d (bs_insts P1)) (bs_props P2) = true ->
+       scan d (bs_insts P1') (sstr_total P1') P2' = true ->
+       forallb (prop_unknown d (bs_insts P1')) (bs_props P2') = true ->
+       exists (nodes : list bs_node) (st1 : dstate) (out1 : cdom) (st2 : dstate) 
+       (out2 : cdom),
+         bspec_to_dom f = Ok nodes /\
+         decode_file d p
+           (bs_enc_header (bs_header_of f) ++
+            gframe_all cmps1 (List.map (bs_enc_item rdA u1) (bs_items_of order1 f))) = 
+         Ok out1 /\
+         decode_file d p
+           (bs_enc_header (bs_header_of f) ++
+            gframe_all cmps2 (List.map (bs_enc_item rdA u2) (bs_items_of order2 f))) = 
+         Ok out2 /\
+         same_dom (phi_of (f_kids f) (D_of st1)) (node_rec f p st1 (bs_props P2)) nodes out1 /\
+         same_dom (phi_of (f_kids f) (D_of st2)) (node_rec f p st2 (bs_props P2')) nodes out2.
+Proof. exact chunk_order_independent. Qed.
+
+Theorem C04_compression_and_rotation_independent :
+  forall (d : db) (p : dec_params) (u1 u2 : bool) (order : list bs_okey)
+         (cmps1 cmps2 : list compression) (f : bs_file) (st : dstate),
+       dp_lim p = None ->
+       bs_wf f = true ->
+       gframes_rt p cmps1 (List.map (bs_enc_item rdA u1) (bs_items_of order f)) ->
+       gframes_rt p cmps2 (List.map (bs_enc_item rdA u2) (bs_items_of order f)) ->
+       run_items d p dstate0 (bs_items_of order f) = Some st ->
+       decode_file d p
+         (bs_enc_header (bs_header_of f) ++
+          gframe_all cmps1 (List.map (bs_enc_item rdA u1) (bs_items_of order f))) =
+       decode_file d p
+         (bs_enc_header (bs_header_of f) ++
+          gframe_all cmps2 (List.map (bs_enc_item rdA u2) (bs_items_of order f))).
+Proof. exact compression_and_rotation_independent. Qed.
+
+(* could not find ref_before_inst_order_refuted *)
+(* could not find sstr_after_prop_order_refuted *)
+(* could not find prnt_before_inst_order_refuted *)
+(* could not find faces_high_bits_refuted *)
+(* could not find brickcolor_not_in_palette_refuted *)
+(* could not find font_weight_misread_refuted *)
+(* could not find duplicate_prop_last_wins *)
+(* could not find prnt_cycle_dropped *)
+Theorem C04_ref_before_inst_order_refuted :
+  bs_wf BinSpecReadExamples.f_ref = true /\
+       bs_doc_wf BinSpecReadExamples.f_ref = true /\
+       bspec_decode rdA
+         (bspec_encode rdA
+            {| ch_order := [OInst 0; OProp 0; OInst 1; OPrnt]; ch_comp := []; ch_rot_ids := true |}
+            BinSpecReadExamples.f_ref) = Ok BinSpecReadExamples.f_ref /\
+       BinSpecReadExamples.link_of
+         (decode_file BinFileFacts.db0 BinSpecReadExamples.ex_p
+            (bspec_encode rdA
+               {| ch_order := [OInst 0; OProp 0; OInst 1; OPrnt]; ch_comp := []; ch_rot_ids := true |}
+               BinSpecReadExamples.f_ref)) = Some (VRef 0) /\
+       BinSpecReadExamples.link_of
+         (decode_file BinFileFacts.db0 BinSpecReadExamples.ex_p
+            (bspec_encode rdA
+               {| ch_order := [OInst 0; OInst 1; OProp 0; OPrnt]; ch_comp := []; ch_rot_ids := true |}
+               BinSpecReadExamples.f_ref)) = Some (VRef 2).
+Proof. exact BinSpecReadExamples.ref_before_inst_order_refuted. Qed.
+
+Theorem C04_sstr_after_prop_order_refuted :
+  bs_wf BinSpecReadExamples.f_sstr = true /\
+       bs_doc_wf BinSpecReadExamples.f_sstr = true /\
+       bspec_decode rdA
+         (bspec_encode rdA
+            {| ch_order := [OInst 0; OProp 0; OSstr; OPrnt]; ch_comp := []; ch_rot_ids := true |}
+            BinSpecReadExamples.f_sstr) = Ok BinSpecReadExamples.f_sstr /\
+       decode_file BinFileFacts.db0 BinSpecReadExamples.ex_p
+         (bspec_encode rdA
+            {| ch_order := [OInst 0; OProp 0; OSstr; OPrnt]; ch_comp := []; ch_rot_ids := true |}
+            BinSpecReadExamples.f_sstr) = Err E_INVALID_DATA /\
+       scan BinFileFacts.db0 [] 0
+         (flat_map (item_of_key BinSpecReadExamples.f_sstr) [OInst 0; OProp 0; OSstr; OPrnt]) = false /\
+       scan BinFileFacts.db0 [] 0
+         (flat_map (item_of_key BinSpecReadExamples.f_sstr) [OSstr; OInst 0; OProp 0; OPrnt]) = true.
+Proof. exact BinSpecReadExamples.sstr_after_prop_order_refuted. Qed.
+
+Theorem C04_prnt_before_inst_order_refuted :
+  bs_wf BinSpecReadExamples.f_tree = true /\
+       bs_doc_wf BinSpecReadExamples.f_tree = true /\
+       bspec_decode rdA
+         (bspec_encode rdA {| ch_order := [OInst 0; OPrnt; OInst 1]; ch_comp := []; ch_rot_ids := true |}
+            BinSpecReadExamples.f_tree) = Ok BinSpecReadExamples.f_tree /\
+       decode_file BinFileFacts.db0 BinSpecReadExamples.ex_p
+         (bspec_encode rdA {| ch_order := [OInst 0; OPrnt; OInst 1]; ch_comp := []; ch_rot_ids := true |}
+            BinSpecReadExamples.f_tree) = Err E_UNKNOWN_REFERENT /\
+       inst_prnt_ok false (flat_map (item_of_key BinSpecReadExamples.f_tree) [OInst 0; OPrnt; OInst 1]) =
+       false /\
+       option_map (Datatypes.length (A:=inst))
+         match
+           decode_file BinFileFacts.db0 BinSpecReadExamples.ex_p
+             (bspec_encode rdA {| ch_order := [OInst 1; OPrnt; OInst 0]; ch_comp := []; ch_rot_ids := true |}
+                BinSpecReadExamples.f_tree)
+         with
+         | Ok o => Some o
+         | _ => None
+         end = Some 2%nat.
+Proof. exact BinSpecReadExamples.prnt_before_inst_order_refuted. Qed.
+
+Theorem C04_faces_high_bits_refuted :
+  bs_col_ok (KFaces [64]) = true /\
+       bs_col_values [] BinSpecReadExamples.lo0 (KFaces [64]) = Ok [VFaces 0] /\
+       dec_col WFaces VT_Faces BinSpecReadExamples.ctx0 1 (bs_enc_col rdA true (KFaces [64])) =
+       Err E_INVALID_DATA.
+Proof. exact BinSpecReadExamples.faces_high_bits_refuted. Qed.
+
+Theorem C04_brickcolor_not_in_palette_refuted :
+  bs_col_ok (KBrickColor [4]) = true /\
+       bs_col_values [] BinSpecReadExamples.lo0 (KBrickColor [4]) = Ok [VBrickColor 4] /\
+       dec_col WBrickColor VT_BrickColor BinSpecReadExamples.ctx0 1 (bs_enc_col rdA true (KBrickColor [4])) =
+       Err E_INVALID_DATA.
+Proof. exact BinSpecReadExamples.brickcolor_not_in_palette_refuted. Qed.
+
+Theorem C04_font_weight_misread_refuted :
+  bs_col_ok (KFont [([], 450, 0, [])]) = true /\
+       bs_col_values [] BinSpecReadExamples.lo0 (KFont [([], 450, 0, [])]) =
+       Ok [VFont {| fo_family := []; fo_weight := 450; fo_style := 0; fo_cached := None |}] /\
+       dec_col WFont VT_Font BinSpecReadExamples.ctx0 1 (bs_enc_col rdA true (KFont [([], 450, 0, [])])) =
+       Ok ([VFont {| fo_family := []; fo_weight := 400; fo_style := 0; fo_cached := None |}], []).
+Proof. exact BinSpecReadExamples.font_weight_misread_refuted. Qed.
+
+Theorem C04_duplicate_prop_last_wins :
+  bs_wf BinSpecReadExamples.f_dup = true /\
+       option_map (List.map bn_props)
+         match bspec_to_dom BinSpecReadExamples.f_dup with
+         | Ok n => Some n
+         | _ => None
+         end = Some [[(BinSpecReadExamples.S "X", VInt32 1); (BinSpecReadExamples.S "X", VInt32 2)]] /\
+       option_map (List.map i_props)
+         match
+           decode_file BinFileFacts.db0 BinSpecReadExamples.ex_p
+             (bspec_encode rdA
+                {|
+                  ch_order := bs_canonical_order BinSpecReadExamples.f_dup; ch_comp := []; ch_rot_ids := true
+                |} BinSpecReadExamples.f_dup)
+         with
+         | Ok o => Some o
+         | _ => None
+         end = Some [[(BinSpecReadExamples.S "X", VInt32 2)]].
+Proof. exact BinSpecReadExamples.duplicate_prop_last_wins. Qed.
+
+Theorem C04_prnt_cycle_dropped :
+  bs_wf BinSpecReadExamples.f_cyc = true /\
+       bs_doc_wf BinSpecReadExamples.f_cyc = true /\
+       decode_file BinFileFacts.db0 BinSpecReadExamples.ex_p
+         (bspec_encode rdA
+            {| ch_order := bs_canonical_order BinSpecReadExamples.f_cyc; ch_comp := []; ch_rot_ids := true |}
+            BinSpecReadExamples.f_cyc) = Ok [].
+Proof. exact BinSpecReadExamples.prnt_cycle_dropped. Qed.
+
